@@ -7,7 +7,7 @@ import z3
 from sx import core as S, env as E, npshim, ffi
 
 PROPERTY = "C13"
-REGIONS = ["array-compressed-before", "transposed-layout", "magnitude-above-2^53", "shadow", "prio", "rank", "first", "last", "min", "max", "1-D", "2-D-axis0", "2-D-axis1", "3-D", "all-zero-column", "tie", "negative-priority",
+REGIONS = ["other-array-with-the-same-values-compressed-before", "array-compressed-before", "transposed-layout", "magnitude-above-2^53", "shadow", "prio", "rank", "first", "last", "min", "max", "1-D", "2-D-axis0", "2-D-axis1", "3-D", "all-zero-column", "tie", "negative-priority",
            "later-row-overrides"]
 BOUNDS = ("every array entry symbolic with |p|<=50 (and |p|<=2^62 for the 1-D n=3 and 2x2 shapes, where translator validation is biased to adjacent values above 2^53); shapes: 1-D n<=4 (thorough 5), 2-D 2x2, 2x3 (thorough also 3x2) on both axes, 3-D 2x2x2 (axis 0, "
           "thorough); all seven methods; 'shadow' through the real FFI on path representatives (M8)")
@@ -51,6 +51,13 @@ def instantiations(tier, seed):
         out.append({"shape": [2, 2], "axis": k % 2, "method": me, "before": b4})
         if tier == "thorough":
             out.append({"shape": [3], "axis": None, "method": me, "before": b4})
+    # another array with the same values compressed first in the same process (one column's entries exchanged between the rows)
+    for me in ("shadow", "prio") if tier == "quick" else ("shadow", "prio", "rank", "last"):
+        if tier == "thorough":
+            out.append({"shape": [2, 2], "axis": 0, "method": me, "prior": "colswap"})
+            out.append({"shape": [2, 3], "axis": 0, "method": me, "prior": "colswap", "fixed": {"0,2": 0, "1,0": 0}})
+        # three free entries (four cost minutes: every earlier compression forks on the same comparisons again)
+        out.append({"shape": [2, 3], "axis": 0, "method": me, "prior": "colswap", "fixed": {"0,2": 0, "1,0": 0, "1,1": 0}})
     if tier == "quick":
         out.append({"shape": [2, 2, 2], "axis": 0, "method": "first"})
         out.append({"shape": [2, 2, 2], "axis": 0, "method": "max"})
@@ -108,6 +115,15 @@ def run_inst(spec, run):
             X = ns.pnd.integer_ndarray(arr) if len(shape) >= 2 else ns.pnd.integer_ndarray(arr, variables=[ns.puan.variable(i) for i in range(shape[0])], index=[ns.puan.variable(i) for i in range(shape[0])])
             err = res = None
             try:
+                if spec.get("prior") == "colswap":
+                    # an earlier compression of ANOTHER array holding the same values, for every column in turn: that column's entries exchanged between the first two rows
+                    # (same shape, same multiset of priorities, ties fall differently across the row boundary); result discarded
+                    for j in range(shape[1]):
+                        Y = np.empty(shape, dtype=object)
+                        for idx in np.ndindex(*shape):
+                            Y[idx] = arr[idx]
+                        Y[0, j], Y[1, j] = arr[1, j], arr[0, j]
+                        ns.pnd.integer_ndarray(Y).ndint_compress(method=me, axis=axis)
                 if spec.get("before"):
                     # an earlier compression of the SAME array object with another method (result discarded): the array is an input, not scratch space
                     X.ndint_compress(method=spec["before"], axis=axis)
@@ -132,6 +148,8 @@ def run_inst(spec, run):
             run.region({1: "1-D", 3: "3-D"}.get(len(shape), "2-D-axis%s" % axis))
             if spec.get("before"):
                 run.region("array-compressed-before")
+            if spec.get("prior"):
+                run.region("other-array-with-the-same-values-compressed-before")
             # the caller's array still holds what it held before the call(s)
             Xa = np.asarray(d["X"], dtype=object)
             fr = [S.term(Xa[idx]) != S.term(ent[idx]) for idx in ent] if Xa.shape == tuple(shape) else [z3.BoolVal(True)]
@@ -253,6 +271,26 @@ def run_inst(spec, run):
                 es = [v.e for v in ent.values() if not z3.is_int_value(z3.simplify(v.e))]
                 ext = z3.Or([z3.And(a_ == b_ + 1, b_ >= 2 ** 53) for a_ in es for b_ in es if a_ is not b_] or [z3.BoolVal(False)])
                 run.region("magnitude-above-2^53")
+            if spec.get("prior") == "colswap" and len(shape) == 2 and axis == 0:
+                # boundary-biased sample: the last column ties with another column and shares its deciding row in this array, but not in the
+                # array compressed before it (there the two tied priorities sit in different rows)
+                colX = lambda k: [ent[(i, k)].e for i in range(shape[0])]     # noqa
+                alts = []
+                for j in range(shape[1]):
+                    colY = [ent[(1, j)].e, ent[(0, j)].e] + [ent[(i, j)].e for i in range(2, shape[0])]
+                    ej, rj = last_nz(colX(j))
+                    ey, ry = last_nz(colY)
+                    rhoX = [last_nz(colX(k))[1] for k in range(shape[1])]
+                    rhoY = [ry if k == j else rhoX[k] for k in range(shape[1])]
+                    # ... and both arrays use both rows (every row decides at least one column), so they look alike at a coarse level
+                    occupied = z3.And([z3.Or([r_ == row for r_ in rho]) for rho in (rhoX, rhoY) for row in (0, 1)])
+                    alts += [z3.And(zabs(last_nz(colX(k))[0]) == zabs(ej), ej != 0, rhoX[k] == rj, zabs(ey) == zabs(ej), ry != rj, occupied) for k in range(shape[1]) if k != j]
+                ext = z3.Or(alts)
+                # maximal ties first: every non-zero entry has the same magnitude (falls back to the plain tie condition)
+                es_ = [v.e for v in ent.values()]
+                alleq = z3.And([z3.Or(a_ == 0, b_ == 0, zabs(a_) == zabs(b_)) for a_, b_ in itertools.combinations(es_, 2)])
+                if ctx.query(z3.And(ext, alleq))[0] == "sat":
+                    ext = z3.And(ext, alleq)
             run.validate(ctx, conc, lambda m: {"res": [S.model_int(m, res[o]) for o, _ in fb]}, extremes=ext)
             run.sample({"shape": list(shape), "axis": axis, "method": me, "path_condition": [str(z3.simplify(x)) for x in ctx.pc][:6],
                         "result": [str(z3.simplify(w[o])) for o, _ in fb], "ffi_calls": stub.calls})
